@@ -1342,6 +1342,38 @@ example : fitsCard ⟨.uint, 2, .big⟩ = .ok ⟨16, 32768⟩ ∧ (⟨.uint, 2, 
     (⟨16, 32768⟩ : FitsCard).fits (65535 - 32768) = true ∧
     readDType .fitsImageField ⟨.uint, 2, .big⟩ = .ok ⟨.uint, 2, .little⟩ := by decide
 
+/-! ## sparse storage formats assigned through the setter (D162) -/
+
+/-- The repaired `to_dict` of a basis that holds a **CSR** matrix (assigned through the
+`transformation_matrix` setter) emits arrays SciPy accepts as a CSC matrix of the same shape:
+1-D arrays of equal length and `len(indptr) = columns + 1`, for every CSR record. -/
+theorem csr_to_csc_wellformed (r : Csc) (n m : Nat) (hs : r.shape = [n, m]) :
+    (csrToCsc r).wellFormed = true ∧ (csrToCsc r).shape = r.shape := by
+  simp [csrToCsc, Csc.wellFormed, hs, cumul_length, Function.comp_def]
+
+/-- **Dictionary round trip for every sparse storage** (after the repair of D162): whatever the
+setter stored (CSC or CSR), `from_dict(to_dict(b))` is the sparse basis on the same grid whose matrix
+is the CSC conversion SciPy makes of the stored matrix.
+`_partial`: that this conversion has the same dense values (`cscToDense (csrToCsc r) = csrToDense r`)
+is not proved here — the stream `spstore` compares both sides (and the real `toarray()`) on every
+generated CSR matrix; formats without `indices` / `indptr` (COO, LIL, DIA, DOK) are converted by SciPy
+and not modelled (`SpStore.toCsc = none`). -/
+theorem sparse_store_dict_roundtrip_partial (s : SpStore) (c : Csc) (g : Grid) (h : g.Ok)
+    (hc : s.toCsc = some c) :
+    (ModeBasis.toDict ⟨.sparse c, some g⟩).bind (fun t => ModeBasis.fromDict t) = .ok ⟨.sparse c, some g⟩ ∧
+    (∀ r n m, s = .csr r → r.shape = [n, m] → c.wellFormed = true ∧ c.shape = [n, m]) := by
+  refine ⟨modebasis_dict_roundtrip ⟨.sparse c, some g⟩ g rfl h, ?_⟩
+  intro r n m hs hshape
+  subst hs
+  simp only [SpStore.toCsc] at hc
+  injection hc with hc
+  subst hc
+  have := csr_to_csc_wellformed r n m hshape
+  exact ⟨this.1, by rw [this.2, hshape]⟩
+
+example : (SpStore.csr ⟨⟨"f8", [3], [1, 3, 4]⟩, ⟨"i4", [3], [0, 2, 0]⟩, ⟨"i4", [3], [0, 2, 3]⟩, [2, 3]⟩).toCsc.map
+    (fun c => (c.wellFormed, (cscToDense c).data)) = some (true, [1, 0, 3, 4, 0, 0]) := by decide +kernel
+
 /-! ## Old — the unrepaired read/write paths and their counterexamples
 
 Documentation of the defects that were found (D14, D19, D160, D161): statements about `…Old`
@@ -1394,5 +1426,24 @@ theorem fits_repaired_on_counterexamples :
     (writeGridFits AsdfLib.observed ⟨.noneSys, .regular [.float 1] [3] [.float 0], .null⟩).bind readGridFits
       = .ok ⟨.noneSys, .regular [.float 1] [3] [.float 0], .null⟩ := by
   refine ⟨rfl, rfl, ?_, ?_, rfl⟩ <;> decide +kernel
+
+/-- CSR records of `[[1, 0, 3], [4, 0, 0]]` and of `[[1, 2], [0, 3]]` -/
+def exCsr23 : Csc := ⟨⟨"f8", [3], [1, 3, 4]⟩, ⟨"i4", [3], [0, 2, 0]⟩, ⟨"i4", [3], [0, 2, 3]⟩, [2, 3]⟩
+def exCsr22 : Csc := ⟨⟨"f8", [3], [1, 2, 3]⟩, ⟨"i4", [3], [0, 1, 1]⟩, ⟨"i4", [3], [0, 2, 3]⟩, [2, 2]⟩
+
+/-- D162: on the unrepaired tree a sparse basis whose matrix was assigned as **CSR** is written with
+the CSR arrays as they are.  For a 2 × 3 matrix SciPy rejects them on reading (`indptr` has
+rows + 1 = 3 entries, not columns + 1 = 4: "index pointer size 3 should be 4"); for a square matrix
+they pass the check and are read as the **transposed** matrix.  The repaired `to_dict` returns the
+matrix in both cases. -/
+theorem to_dict_csr_old_counterexample :
+    ((SpStore.csr exCsr23).toDictOld.bind Csc.fromDict).map Csc.wellFormed = .ok false ∧
+    ((SpStore.csr exCsr22).toDictOld.bind Csc.fromDict).map (fun c => (c.wellFormed, (cscToDense c).data))
+      = .ok (true, [1, 0, 2, 3]) ∧
+    (csrToDense exCsr22).data = [1, 2, 0, 3] ∧
+    (SpStore.csr exCsr22).toCsc.map (fun c => (cscToDense c).data) = some [1, 2, 0, 3] ∧
+    (SpStore.csr exCsr23).toCsc.map (fun c => (c.wellFormed, (cscToDense c).data)) = some (true, [1, 0, 3, 4, 0, 0]) ∧
+    SpStore.noIndices.toDictOld = .error .attr := by
+  refine ⟨?_, ?_, ?_, ?_, ?_, rfl⟩ <;> first | decide +kernel | rfl
 
 end HcipyVerif.Serial
